@@ -1955,7 +1955,7 @@ fn c20(c: &mut Ctx) {
             } else {
                 c.rng.next_u64()
             };
-            for op in ["and", "or", "xor"] {
+            for op in ["and", "or", "xor", "andassign", "orassign", "xorassign"] {
                 c.case(&format!("bb {}", op), &format!("bb {} {:x} {:x}", op, a, b));
             }
         }
